@@ -105,6 +105,16 @@ pub fn inputs(thorough: bool) -> Vec<Input> {
     ] {
         v.push(Input { key: format!("named|{what}"), src: format!("/* \"q\" \\ {{}} */\n{src}") });
     }
+    // declarations-only and empty sources (no entry point): SOURCE and create_shader_module are owed all the same
+    for (what, src) in [
+        ("library", "/* \"lib\" \\ */\nstruct Shared { a: vec4<f32> };\nconst K: f32 = 2.0;\nfn helper(x: f32) -> f32 { return x * K; }\n"),
+        ("bindings-only", "@group(0) @binding(0) var<uniform> u: vec4<f32>;\n"),
+        ("comment-only", "// nothing but a comment \"here\"\n"),
+        ("empty", ""),
+        ("whitespace", " \n\t\r\n"),
+    ] {
+        v.push(Input { key: format!("no-entry|{what}"), src: src.to_string() });
+    }
     // non-ASCII identifiers
     for id in ["\u{e9}t\u{e9}", "\u{4e2d}\u{6587}", "a\u{301}b", "\u{394}x", "\u{10400}z"] {
         v.push(Input { key: format!("ident|{}", esc(id)), src: format!("struct {id}S {{ {id}: f32 }};\n@group(0) @binding(0) var<uniform> {id}_v: {id}S;\n@compute @workgroup_size(1) fn {id}_main() {{ let {id}_l = {id}_v.{id}; }}\n") });
@@ -311,7 +321,12 @@ pub fn run(tier: &str) -> i32 {
                 rep.violation(format!("{key}|rustc"), format!("rustc rejects the generated module: {} {}", e[0].0, e[0].1.chars().take(90).collect::<String>()), json!({"wgsl": src, "observed": format!("{e:?}")}));
                 continue;
             }
-            Verdict::ProbeMismatch(e) => machinery(&format!("C16 probe: {e:?}")),
+            Verdict::ProbeMismatch(e) => {
+                // the probe uses nothing but `SOURCE` and `create_shader_module(device)`: if it does not fit, one of them is
+                // missing or has another shape
+                rep.violation(format!("{key}|rustc"), format!("SOURCE / create_shader_module cannot be used as documented: {} {}", e[0].0, e[0].1.chars().take(90).collect::<String>()), json!({"wgsl": src, "observed": format!("{e:?}")}));
+                continue;
+            }
         }
         rep.traces_validated += 1;
         let same = cr.records.iter().find(|r| r["op"] == "source").map(|r| r["same"].as_bool().unwrap()).unwrap_or(false);
